@@ -91,7 +91,7 @@ template<class T> static bool apply_op(Queue<T> & q, Ideal & ideal, const std::s
    std::vector<std::string> a = split(ops, ':');
    const std::string & c = a[0];
    #define I(k) atoi(a[k].c_str())
-   #define U(k) ((uint32)atoi(a[k].c_str()))
+   #define U(k) ((uint32)strtoul(a[k].c_str(), NULL, 10))
    if (c == "at") {o << (q.AddTail(T(I(1))).IsOK() ? "ok" : "err"); ideal.push_back(I(1));}
    else if (c == "ah") {o << (q.AddHead(T(I(1))).IsOK() ? "ok" : "err"); ideal.insert(ideal.begin(), I(1));}
    else if (c == "rh") {T v; if (q.RemoveHead(v).IsOK()) o << "v" << val(v); else o << "none"; if (!ideal.empty()) ideal.erase(ideal.begin());}
@@ -103,7 +103,7 @@ template<class T> static bool apply_op(Queue<T> & q, Ideal & ideal, const std::s
    else if (c == "rp") {o << (q.ReplaceItemAt(U(1), T(I(2))).IsOK() ? "ok" : "err"); if (U(1) < ideal.size()) ideal[U(1)] = I(2);}
    else if (c == "g")  {T v; if (q.GetItemAt(U(1), v).IsOK()) o << "v" << val(v); else o << "none";}
    else if (c == "cl") {q.Clear(I(1) != 0); o << "-"; ideal.clear();}
-   else if (c == "es") {o << (q.EnsureSize(U(1), I(2)!=0, U(3), I(4)!=0).IsOK() ? "ok" : "err"); if (I(2)) ideal.resize(U(1), 0);}
+   else if (c == "es") {const bool okk = q.EnsureSize(U(1), I(2)!=0, U(3), I(4)!=0).IsOK(); o << (okk ? "ok" : "err"); if ((okk)&&(I(2))) ideal.resize(U(1), 0);}
    else if (c == "sw") {if ((U(1) < q.GetNumItems())&&(U(2) < q.GetNumItems())) {q.Swap(U(1), U(2)); std::swap(ideal[U(1)], ideal[U(2)]);} o << "-";}
    else if (c == "rv") {q.ReverseItemOrdering(U(1), U(2)); o << "-";
                         if ((U(1) < U(2))&&(!ideal.empty())) {size_t t = std::min((size_t)U(2)-1, ideal.size()-1); size_t f = U(1); while(f < t) std::swap(ideal[f++], ideal[t--]);}}
@@ -236,7 +236,10 @@ static std::string expected_result(const Ideal & v, const Ideal & w, const std::
    std::vector<std::string> a = split(ops, ':');
    const std::string & c = a[0];
    const size_t sz = v.size();
-   if ((c=="at")||(c=="ah")||(c=="ia")||(c=="atm")||(c=="ahm")||(c=="iia")||(c=="cf")||(c=="es")||(c=="stf")||(c=="eca")||(c=="cq")||(c=="atq")||(c=="ahq")||(c=="iiq")) return "ok";
+   if ((c=="at")||(c=="ah")||(c=="ia")||(c=="atm")||(c=="ahm")||(c=="iia")||(c=="cf")||(c=="cq")||(c=="atq")||(c=="ahq")||(c=="iiq")) return "ok";
+   // the uint32 sums of these three must stay below MUSCLE_NO_LIMIT, else B_RESOURCE_LIMIT and nothing changes
+   if (c=="es") return (((uint64)U(1))+((uint64)U(3)) >= 0xFFFFFFFFull) ? "err" : "ok";
+   if ((c=="stf")||(c=="eca")) return (((uint64)sz)+((uint64)U(1)) >= 0xFFFFFFFFull) ? "err" : "ok";
    if ((c=="cl")||(c=="sw")||(c=="rv")||(c=="nm")||(c=="so")||(c=="rpa")||(c=="sc")||(c=="pl")||(c=="as")) return "-";
    if (c=="rh") return sz ? num("v", v[0]) : "none";
    if (c=="rt") return sz ? num("v", v[sz-1]) : "none";
